@@ -3,6 +3,7 @@ import UralModel.Lemmas.C07Whole
 import UralModel.Model.NormalizeUrl
 import UralModel.Model.FingerprintUrl
 import UralModel.Lemmas.Redirect
+import UralModel.Lemmas.C07Infer
 /-!
 # C07 on STRINGS: the parser inside the model
 
@@ -493,6 +494,41 @@ theorem bare_hostname_string (puny : Str → Str) (hpc : PunyClean puny) (hpl : 
   exact normalized_hostname_string puny hpc hpl amp (bare_hostClass h hb)
 
 end
+
+/-- **`infer_redirection` leaves a bare hostname alone**: no `/`, `:` or `%` in it, so no
+redirection domain and no hint that is followed -/
+theorem infer_bare (h : Str) (hb : BareHost h) : infer h = h := by
+  apply infer_eq_self_of_target
+  have hsub : ∀ c ∈ cleanedUrl h, c ∈ h := by
+    intro c hc
+    unfold cleanedUrl at hc
+    have := mem_strip hc
+    unfold stripControl at this
+    exact (List.mem_filter.1 this).1
+  exact inferTarget_none _ (fun hm => hb.1 _ (hsub _ hm) (by simp)) (fun hm => hb.1 _ (hsub _ hm) (by simp))
+    (fun hm => hb.1 _ (hsub _ hm) (by simp))
+
+/-- … so the bare-hostname claims hold with the helper's default `infer_redirection=True` too -/
+theorem bare_hostname_agrees_infer (puny : Str → Str) (amp ir : Bool) (h : Str) (hb : BareHost h) :
+    orNone (getNormalizedHostname puny hostOfModel amp ir h)
+      = orNone (some (normalizeHostname puny amp h)) := by
+  rw [← bare_hostname_agrees puny amp h hb]
+  cases ir with
+  | false => rfl
+  | true =>
+    unfold getNormalizedHostname
+    simp only [if_true, infer_bare h hb, Bool.false_eq_true, if_false]
+
+theorem bare_hostname_string_infer (puny : Str → Str) (hpc : PunyClean puny) (hpl : PunyLower puny)
+    (amp ir : Bool) (h : Str) (hb : BareHost h) :
+    orNone (some (normalizeHostname puny amp h)) =
+      hostAfterEnsure hostOfModel (normalizeUrlString puny id (ampOpts amp) ir h) := by
+  rw [bare_hostname_string puny hpc hpl amp h hb]
+  cases ir with
+  | false => rfl
+  | true =>
+    unfold normalizeUrlString normalizeUrlStringSplit
+    simp only [if_true, infer_bare h hb, Bool.false_eq_true, if_false]
 
 /-! ## non-vacuity -/
 
